@@ -39,7 +39,17 @@ func detail(v any) json.RawMessage { b, _ := json.Marshal(v); return b }
 func atoi(s string) int            { n, _ := strconv.Atoi(s); return n }
 
 func allJobs(c *vf.Ctx) []job {
-	return append(starvingJobs(c.Quick()), dagJobs(c.Rand("dag"), c.Quick())...)
+	jobs := append(starvingJobs(c.Quick()), dagJobs(c.Rand("dag"), c.Quick())...)
+	// every configuration again with a mismatched unlock injected at a seeded reachable state
+	n := len(jobs)
+	for _, j := range jobs[:n] {
+		k := c.Pick(12, 60)
+		if len(j.Cfg.Programs) > 2 {
+			k = c.Pick(16, 40)
+		}
+		jobs = append(jobs, job{Cfg: j.Cfg, Mode: "probe", N: k})
+	}
+	return jobs
 }
 
 func reportExplore(c *vf.Ctx, j job, st exploreStats) {
@@ -49,6 +59,27 @@ func reportExplore(c *vf.Ctx, j job, st exploreStats) {
 	c.Count("lock_requests_granted", st.Grants)
 	c.Count("parked_request_observations", st.ParkObs)
 	c.Count("string_vs_model_checks", st.StrOK)
+	if j.Mode == "probe" {
+		c.Count("mismatched_unlock_probes", st.Probes)
+		c.Count("mismatched_unlock_probes:"+j.Cfg.Target, st.Probes)
+		c.Count("mismatched_unlock_probes_panicked", st.ProbesPanicked)
+		c.Count("mismatched_unlock_probes_silent_state_unchanged", st.ProbesSilent)
+		c.Count("mismatched_unlock_probes_with_parked_requests", st.ProbesWithParked)
+	}
+	for _, p := range j.Cfg.Programs {
+		dup := false
+		for _, o := range p {
+			for x := range o.E {
+				for y := range o.E[:x] {
+					dup = dup || o.E[x] == o.E[y]
+				}
+			}
+		}
+		if dup {
+			c.Count("arrival_orders_with_repeated_ids_in_one_RLock", st.Leaves)
+			break
+		}
+	}
 	c.Count("script_configs", 1)
 	if st.Nondet > 0 {
 		c.Count("dfs_prefix_replayed_differently", st.Nondet)
@@ -200,6 +231,8 @@ func child(c *vf.Ctx) {
 			var st exploreStats
 			if j.Mode == "all" {
 				st = exploreAll(j.Cfg, !race, j.N)
+			} else if j.Mode == "probe" {
+				st = exploreProbe(j.Cfg, !race, j.N, c.Rand("probe/"+j.Cfg.key()))
 			} else {
 				st = exploreRandom(j.Cfg, !race, j.N, c.Rand("order/"+j.Cfg.key()))
 			}
@@ -217,7 +250,7 @@ func child(c *vf.Ctx) {
 	case "script1":
 		var r scriptReplay
 		json.Unmarshal([]byte(c.ChildArgs[0]), &r)
-		st := runOrder(r.Cfg, r.Order, !race)
+		st := runOrder(r.Cfg, r.Order, !race, r.Probe)
 		reportExplore(c, job{Cfg: r.Cfg}, st)
 	case "waits":
 		lo, hi := atoi(c.ChildArgs[0]), atoi(c.ChildArgs[1])
@@ -519,6 +552,11 @@ func run(c *vf.Ctx) {
 	c.Require("arrival_orders:dag", c.Pick(5000, 200000))
 	c.Require("lock_requests_granted", c.Pick(10000, 400000))
 	c.Require("parked_request_observations", c.Pick(10000, 400000))
+	c.Require("mismatched_unlock_probes:starving", c.Pick(800, 5000))
+	c.Require("mismatched_unlock_probes:dag", c.Pick(5000, 30000))
+	c.Require("mismatched_unlock_probes_with_parked_requests", c.Pick(1500, 10000))
+	c.Require("mismatched_unlock_probes_panicked", c.Pick(3000, 20000))
+	c.Require("arrival_orders_with_repeated_ids_in_one_RLock", c.Pick(2000, 50000))
 	c.Require("string_vs_model_checks", c.Pick(20000, 500000))
 	c.Require("waiter_observed_parked", c.Pick(3000, 50000))
 	c.Require("waiter_observed_returned", c.Pick(3000, 50000))
